@@ -9,8 +9,10 @@ export CARGO_NET_OFFLINE=true
 export RUSTFLAGS="--cfg anweiss_cddl_verif"
 mkdir -p .build/kani/base .build/logs evidence
 ( cd kani && cargo kani -Z stubbing -Z concrete-playback --concrete-playback=print --target-dir ../.build/kani/base --only-codegen --harness c11_l2_bytes_def1 >/dev/null 2>../.build/logs/setup-kani.log ) || { tail -20 .build/logs/setup-kani.log; exit 1; }
-( cd replay && cargo build --offline --target-dir ../.build/replay >/dev/null 2>../.build/logs/setup-replay.log && cargo build --offline --release --target-dir ../.build/replay >/dev/null 2>>../.build/logs/setup-replay.log ) || { tail -20 .build/logs/setup-replay.log; exit 1; }
+( mkdir -p .build/mir; cd replay && cargo build --offline --target-dir ../.build/replay >/dev/null 2>../.build/logs/setup-replay.log && cargo build --offline --release --target-dir ../.build/replay >/dev/null 2>>../.build/logs/setup-replay.log ) || { tail -20 .build/logs/setup-replay.log; exit 1; }
 if [ -d pegdump ]; then
   ( cd pegdump && RUSTFLAGS= cargo build --offline --release --target-dir ../.build/pegdump >/dev/null 2>../.build/logs/setup-pegdump.log ) || { tail -20 .build/logs/setup-pegdump.log; exit 1; }
 fi
+# nightly dependency graph for the MIR dump of E3 (only the cddl crate itself is re-compiled per run)
+( cd /repo && env -u RUSTFLAGS cargo +nightly rustc --offline --lib --target-dir /verif/.build/mir -- -Zunpretty=mir -C debug-assertions=off -C overflow-checks=on >/dev/null 2>/verif/.build/logs/setup-mir.log ) || { tail -20 .build/logs/setup-mir.log; exit 1; }
 echo "setup ok"
